@@ -20,6 +20,12 @@ def run_controls():
         if bool(errs) != must:
             print("CONTROL-FAIL R-FMT %r expected %s got %s" % (fmt, must, errs))
             bad += 1
+    # R-DUPKEY control: a table literal with a repeated key must be seen
+    import ast as _ast
+    d = _ast.parse("T = {0b0110: 'fbu', 0b0110: 'fbg', 1: 'x'}").body[0].value
+    keys = [k.value for k in d.keys]
+    if len(keys) == len(set(keys)):
+        print("CONTROL-FAIL R-DUPKEY"); bad += 1
     try:
         from .controls_extra import run_extra
 
